@@ -161,6 +161,11 @@ def check_structs(run, F):
             if fn.kind == 'AssocFn' and fn.impl_self and head_type(fn.impl_self) == h and \
                     fn.name in ('next', 'next_back', 'size_hint') and fn.crate == 'tea_core':
                 fns[fn.name] = fn
+            elif fn.kind == 'AssocFn' and fn.impl_self and head_type(fn.impl_self) == h and \
+                    fn.crate == 'tea_core' and fn.impl_trait and \
+                    strip_generics(fn.impl_trait).split('::')[-1] in ('Iterator', 'DoubleEndedIterator',
+                                                                      'ExactSizeIterator'):
+                fns.setdefault('#other', []).append(fn)
         if 'size_hint' not in fns or 'next' not in fns:
             if short == 'OptIter':
                 continue
@@ -224,7 +229,59 @@ def check_structs(run, F):
                    % (len(paths), K))
             run.ob('TL.struct', fn, '%s::%s None path' % (short, nm), none_ok, fn.loc(),
                    '; '.join(det) or 'None paths leave k unchanged')
+        # other overridden iterator methods that advance the wrapped iterator
+        for fn in fns.get('#other', []):
+            _check_skip_method(run, fn, short, K)
     return n
+
+
+SKIP_METHODS = {'nth': 'nth', 'nth_back': 'nth_back'}
+BY_VALUE = ('count', 'last', 'fold', 'for_each', 'collect', 'sum', 'product', 'max', 'min', 'rfold', 'len',
+            'is_empty')
+
+
+def _check_skip_method(run, fn, short, K):
+    """`nth(n)` / `nth_back(n)` take min(k, n+1) items: the declared length must drop by n+1
+    when an item comes back and to 0 when the iterator ran out.  Methods that consume the
+    iterator by value need no bookkeeping; any other `&mut self` override is not modelled."""
+    if fn.name in BY_VALUE:
+        return
+    key = '%s::%s keeps the declared length' % (short, fn.name)
+    if fn.name not in SKIP_METHODS or len(K) != 1:
+        if any(x.get('k') == 'MethodCall' and 'iter' in src(peel(x['ch'][0])) for x in walk(fn.hir)):
+            run.ob('TL.struct', fn, key, False, fn.loc(),
+                   'override advances the wrapped iterator but is not one of next / next_back / nth / '
+                   'nth_back: the length bookkeeping of this method is not modelled')
+        return
+    fld = list(K)[0]
+    params = [b['name'] for p in fn.params for b in _pat_binds(p)]
+    nparam = params[1] if len(params) > 1 else 'n'
+    env = {b['local']: ('self' if i == 0 else b['name']) for i, p in enumerate(fn.params) for b in _pat_binds(p)}
+    t = dtree.table(fn.hir, env)
+    step = r'\((1 \+ %s|%s \+ 1)\)' % (nparam, nparam)
+    dec = re.compile(r'self\.%s (SubAssign %s|= self\.%s\.saturating_sub\(%s\))$' % (fld, step, fld, step))
+    sat = re.compile(r'self\.%s = self\.%s\.saturating_sub\(%s\)$' % (fld, fld, step))
+    zero = re.compile(r'self\.%s = 0$' % fld)
+    det = []
+    ok = True
+    for cs, leaf, ef in t:
+        upd = [e for e in ef if e.startswith('self.%s ' % fld)]
+        some = any(c.startswith('VALID(') for c in cs) or leaf.startswith('Some(')
+        none = any(c.startswith('!VALID(') for c in cs) or leaf == 'NULL'
+        if some and not none:
+            good = len(upd) == 1 and dec.match(upd[0])
+        elif none and not some:
+            # exhausted: every remaining item was consumed
+            good = len(upd) == 1 and (zero.match(upd[0]) or sat.match(upd[0]))
+        else:
+            # no test on the result: one saturating update covers both outcomes
+            good = len(upd) == 1 and sat.match(upd[0])
+        if not good:
+            ok = False
+            det.append('path %s -> %s updates %s' % (sorted(cs), leaf[:20], upd or 'nothing'))
+    run.ob('TL.struct', fn, key, ok, fn.loc(),
+           '; '.join(det) or 'k drops by n+1 with an item, to 0 without')
+
 
 
 # ---------------------------------------------------------------- TL.consumer
